@@ -28,11 +28,11 @@ type fileIn struct {
 	CT      string      `json:"content_type"` // "" = let the library sniff
 	Kind    string      `json:"kind"`         // path | bytes | reader | upload
 	Content []byte      `json:"-"`
-	Desc    string      `json:"content"` // description of Content
-	Sizes   []int       `json:"read_sizes,omitempty"` // reader/upload: the i-th Read returns at most Sizes[i] bytes (last repeats)
+	Desc    string      `json:"content"`                 // description of Content
+	Sizes   []int       `json:"read_sizes,omitempty"`    // reader/upload: the i-th Read returns at most Sizes[i] bytes (last repeats)
 	EOFWith bool        `json:"eof_with_data,omitempty"` // reader returns io.EOF together with the last bytes
-	Fail    string      `json:"fail,omitempty"` // "" | open | read0 | readmid
-	Decl    int64       `json:"declared_size"`  // FileUpload.FileSize
+	Fail    string      `json:"fail,omitempty"`          // "" | open | read0 | readmid
+	Decl    int64       `json:"declared_size"`           // FileUpload.FileSize
 	Extra   [][2]string `json:"extra,omitempty"`
 }
 
@@ -53,11 +53,16 @@ type reqIn struct {
 	Raw            []byte   `json:"raw,omitempty"`
 	RawSet         bool     `json:"raw_set,omitempty"`
 	Callback       string   `json:"upload_callback,omitempty"` // "" | 0 | 1ms | 1h
+	Rerun          string   `json:"rerun,omitempty"`           // "" | retry (first attempt answered 503) | digest (first attempt answered 401)
+	Proto          string   `json:"proto,omitempty"`           // "" = HTTP/1.1 | h2 | h3
+	SetFiles       bool     `json:"set_files,omitempty"`       // the (path) files are given as one SetFiles map
+	Stream         bool     `json:"stream,omitempty"`          // Raw is handed over as SetBody(io.Reader)
+	StreamSizes    []int    `json:"stream_read_sizes,omitempty"`
 }
 
 func (in reqIn) key() string {
 	var sb strings.Builder
-	fmt.Fprintf(&sb, "%s|%s|%v|%q|%q|%q|%v|%v|%q|%q|%q|%s|%x|%v|%s", in.Kind, in.Method, in.AllowGet, fmt.Sprint(in.RForm), fmt.Sprint(in.CForm),
+	fmt.Fprintf(&sb, "%s|%v|%v|%v|%s|%s|%s|%v|%q|%q|%q|%v|%v|%q|%q|%q|%s|%x|%v|%s", in.Proto, in.SetFiles, in.Stream, in.StreamSizes, in.Rerun, in.Kind, in.Method, in.AllowGet, fmt.Sprint(in.RForm), fmt.Sprint(in.CForm),
 		in.Ordered, in.ForceMultipart, in.Chunked, in.Boundary, in.RCT, in.CCT, in.Marshal, in.Raw, in.RawSet, in.Callback)
 	for _, f := range in.Files {
 		fmt.Fprintf(&sb, "|%q %q %q %s %d %s %v %v %s %d %v", f.Param, f.Name, f.CT, f.Kind, len(f.Content), f.Desc, f.Sizes, f.EOFWith, f.Fail, f.Decl, f.Extra)
@@ -118,7 +123,8 @@ type upInfo struct {
 
 type sentReq struct {
 	Err     string
-	Arrived *arrived
+	Arrived *arrived // the last attempt
+	First   *arrived // the first attempt when the exchange was scripted to be sent twice
 	Ups     []upInfo
 }
 
@@ -128,6 +134,15 @@ var intervals = map[string]time.Duration{"0": 0, "1ms": time.Millisecond, "1h": 
 func (g *gen) send(in reqIn) sentReq {
 	c := req.C()
 	defer c.GetTransport().CloseIdleConnections()
+	switch in.Proto {
+	case "h2":
+		c.EnableInsecureSkipVerify().EnableForceHTTP2()
+	case "h3":
+		c.EnableInsecureSkipVerify().EnableForceHTTP3()
+	}
+	if in.Rerun == "digest" {
+		c.SetCommonDigestAuth("user", "secret")
+	}
 	if in.AllowGet {
 		c.EnableAllowGetMethodPayload()
 	} else {
@@ -144,6 +159,11 @@ func (g *gen) send(in reqIn) sentReq {
 		c.SetMultipartBoundaryFunc(func() string { return b })
 	}
 	rq := c.R()
+	if in.Rerun == "retry" {
+		rq.SetRetryCount(1).SetRetryFixedInterval(0).SetRetryCondition(func(resp *req.Response, err error) bool {
+			return err == nil && resp.StatusCode == 503
+		})
+	}
 	if len(in.RForm) > 0 {
 		rq.SetFormDataFromValues(valuesOfForm(in.RForm))
 	}
@@ -156,13 +176,26 @@ func (g *gen) send(in reqIn) sentReq {
 	if in.Marshal != "" {
 		rq.SetBody(marshalValues[in.Marshal].v)
 	}
-	if in.RawSet {
+	if in.RawSet && in.Stream {
+		rq.SetBody(&scriptReader{data: in.Raw, sizes: in.StreamSizes, failAt: -1})
+	} else if in.RawSet {
 		rq.SetBodyBytes(in.Raw)
 	}
+	setFiles := map[string]string{}
 	for i := range in.Files {
 		f := in.Files[i]
 		switch f.Kind {
 		case "path":
+			if in.SetFiles {
+				dir := filepath.Join(g.r.OutDir, "files", strconv.Itoa(g.n), strconv.Itoa(i))
+				os.MkdirAll(dir, 0o755)
+				p := filepath.Join(dir, f.Name)
+				if err := os.WriteFile(p, f.Content, 0o644); err != nil {
+					return sentReq{Err: "harness: " + err.Error()}
+				}
+				setFiles[f.Param] = p
+				continue
+			}
 			dir := filepath.Join(g.r.OutDir, "files", strconv.Itoa(g.n), strconv.Itoa(i))
 			os.MkdirAll(dir, 0o755)
 			p := filepath.Join(dir, f.Name)
@@ -200,6 +233,9 @@ func (g *gen) send(in reqIn) sentReq {
 			rq.SetFileUpload(up)
 		}
 	}
+	if in.SetFiles {
+		rq.SetFiles(setFiles)
+	}
 	if in.ForceMultipart {
 		rq.EnableForceMultipart()
 	}
@@ -224,7 +260,17 @@ func (g *gen) send(in reqIn) sentReq {
 				out.Err = fmt.Sprint("panic: ", p)
 			}
 		}()
-		resp, err := rq.Send(in.Method, g.o.url(x))
+		u := g.o.urlFor(in.Proto, x)
+		switch in.Rerun {
+		case "retry":
+			u += "&first=503"
+		case "digest":
+			u += "&first=401"
+		}
+		resp, err := rq.Send(in.Method, u)
+		if err == nil && resp.Err == nil && in.Rerun != "" && resp.StatusCode != 200 {
+			out.Err = fmt.Sprintf("final status %d", resp.StatusCode)
+		}
 		if err != nil {
 			out.Err = err.Error()
 		} else if resp.Err != nil {
@@ -237,6 +283,7 @@ func (g *gen) send(in reqIn) sentReq {
 		return sentReq{Err: "harness: watchdog (60 s)"}
 	}
 	out.Arrived = g.o.take(x)
+	out.First = g.o.take(x + "#1")
 	mu.Lock()
 	defer mu.Unlock()
 	return out
@@ -295,6 +342,16 @@ func serverParts(a *arrived) (string, []seenPart, error) {
 		return b, ps, fmt.Errorf("ParseMultipartForm: %v", err)
 	}
 	return b, ps, nil
+}
+
+// fieldNameBad: a byte net/textproto refuses in a header value (control bytes except TAB)
+func fieldNameBad(s string) bool {
+	for i := 0; i < len(s); i++ {
+		if (s[i] < 0x20 && s[i] != '\t') || s[i] == 0x7f {
+			return true
+		}
+	}
+	return false
 }
 
 func hasCtl(s string) bool {
@@ -362,6 +419,16 @@ func (g *gen) oracleMultipart(in reqIn, s sentReq, parts []seenPart, perr error)
 		}
 		return
 	}
+	for _, f := range in.allFields() {
+		if fieldNameBad(f[0]) {
+			// a field name no part header can carry (control byte other than TAB): the request must not
+			// go out as if all was well; refusing it is the answer
+			if s.Err == "" {
+				fail("multipart:bad-field-name-sent", "a form field name with a control byte was sent (the server cannot read the part headers) and success reported", describeParts(parts), "an error")
+			}
+			return
+		}
+	}
 	if in.failing() {
 		// a file that cannot be opened or read: the caller must learn about it
 		if s.Err == "" {
@@ -374,9 +441,6 @@ func (g *gen) oracleMultipart(in reqIn, s sentReq, parts []seenPart, perr error)
 		return
 	}
 	ctlField, ctlFile := false, false
-	for _, f := range in.allFields() {
-		ctlField = ctlField || hasCtl(f[0])
-	}
 	for _, f := range in.Files {
 		ctlFile = ctlFile || hasCtl(f.Param) || hasCtl(f.Name) || !quoteModelled(f.Param) || !quoteModelled(f.Name)
 	}
